@@ -37,6 +37,13 @@ func NewRepoDir(wrglDir string, badgerLog string) (*RepoDir, error) {
 			return nil, err
 		}
 	}
+	if drv, ok := verifSQLDriver(); ok {
+		rd.db, err = sql.Open(drv, filepath.Join(wrglDir, "sqlite.db"))
+		if err != nil {
+			return nil, err
+		}
+		return rd, nil
+	}
 	rd.db, err = sql.Open("sqlite3", filepath.Join(wrglDir, "sqlite.db"))
 	if err != nil {
 		return nil, err
